@@ -204,6 +204,46 @@ def _len_arg(e: ast.AST):
     return None
 
 
+def quantifier(e: ast.AST):
+    """(positive, iterable, bound variable, condition) if `e` says 'some element of the iterable satisfies the
+    condition' (positive) or its negation:  any(P(x) for x in U),  len([x for x in U if P(x)]) > 0 / == 0 ..."""
+    def comp(c, need_elt_var: bool):
+        if not isinstance(c, (ast.ListComp, ast.GeneratorExp, ast.SetComp)) or len(c.generators) != 1:
+            return None
+        g = c.generators[0]
+        if g.is_async or not isinstance(g.target, ast.Name):
+            return None
+        var = g.target.id
+        if isinstance(c.elt, ast.Name) and c.elt.id == var and len(g.ifs) == 1:
+            return g.iter, var, g.ifs[0]
+        if not need_elt_var and not g.ifs:
+            return g.iter, var, c.elt
+        return None
+    if isinstance(e, ast.Call) and isinstance(e.func, ast.Name) and e.func.id == "any" and len(e.args) == 1 and not e.keywords:
+        r = comp(e.args[0], False)
+        if r:
+            return (True,) + r
+    if isinstance(e, ast.Compare) and len(e.ops) == 1 and isinstance(e.comparators[0], ast.Constant) \
+            and isinstance(e.left, ast.Call) and isinstance(e.left.func, ast.Name) and e.left.func.id == "len" and len(e.left.args) == 1:
+        r = comp(e.left.args[0], True)
+        v, op = e.comparators[0].value, e.ops[0]
+        if r and isinstance(v, int):
+            if (isinstance(op, ast.Eq) and v == 0) or (isinstance(op, ast.Lt) and v == 1) or (isinstance(op, ast.LtE) and v == 0):
+                return (False,) + r
+            if (isinstance(op, (ast.NotEq, ast.Gt)) and v == 0) or (isinstance(op, ast.GtE) and v == 1):
+                return (True,) + r
+    return None
+
+
+def _rename(e: ast.AST, old: str, new: str) -> ast.AST:
+    import copy as _c
+    e = _c.deepcopy(e)
+    for n in ast.walk(e):
+        if isinstance(n, ast.Name) and n.id == old:
+            n.id = new
+    return e
+
+
 class Translator:
     """Translates condition expressions to formulas.
 
@@ -240,6 +280,11 @@ class Translator:
             r = self.atomize(e)
             if r is not None:
                 return r
+        q = quantifier(e)
+        if q is not None:
+            pos, it, var, cond = q
+            at = B(f"any:{self.key(it)}|{self.key(_rename(cond, var, '_q'))}")
+            return at if pos else Not(at)
         if isinstance(e, ast.BoolOp):
             parts = [self.f(v) for v in e.values]
             return And(*parts) if isinstance(e.op, ast.And) else Or(*parts)
